@@ -37,6 +37,11 @@ func (d *Driver) batchPass(f *FuncVC, dir string, perQueryMs int) map[*Obl]Solve
 			body.WriteString("(push 1)\n(assert " + o.Reach + ")\n")
 			if o.Expect != "sat" {
 				body.WriteString("(assert (not " + o.Goal + "))\n")
+				// proof obligations get more time than covers: 300 ms left borderline ones undecided on a loaded
+				// machine, and some of those are slow as individual queries
+				fmt.Fprintf(&body, "(set-option :timeout %d)\n", 4*perQueryMs)
+			} else {
+				fmt.Fprintf(&body, "(set-option :timeout %d)\n", perQueryMs)
 			}
 			fmt.Fprintf(&body, "(echo \"@@%d\")\n(check-sat)\n(pop 1)\n", n)
 		}
@@ -63,7 +68,7 @@ func (d *Driver) batchPass(f *FuncVC, dir string, perQueryMs int) map[*Obl]Solve
 	txt := "(set-logic ALL)\n" + pre + "; ---- batch VC for " + vc.fn + "\n" + bs
 	file := filepath.Join(dir, fmt.Sprintf("batch_%x.smt2", hashStr(vc.fn)))
 	os.WriteFile(file, []byte(txt), 0644)
-	total := n*perQueryMs/1000 + 20
+	total := 4*n*perQueryMs/1000 + 20
 	if total > 240 {
 		total = 240
 	}
